@@ -184,43 +184,37 @@ def stepLL (st : St) (s : LL.LL) (l : LL.Spec) : List String → St × String
     | some n, some v =>
       if !liveIn l n then (st, "bad-node") else
       guardE st (LL.insert s n v) fun (s', nw) =>
-        match LL.specInsert l n nw v with
-        | some l' => ({ st with ll := some (s', l') }, ms (showRef nw) (showRef nw))
-        | none => ({ st with dead := true }, "spec-undefined")
+        ({ st with ll := some (s', LL.specInsert l n nw v) }, ms (showRef nw) (showRef nw))
     | _, _ => (st, "bad-op")
   | ["ll_append", n, v] =>
     match parseNode n, v.toNat? with
     | some n, some v =>
       if !liveIn l n then (st, "bad-node") else
       guardE st (LL.append s n v) fun (s', nw) =>
-        match LL.specAppend l n nw v with
-        | some l' => ({ st with ll := some (s', l') }, ms (showRef nw) (showRef nw))
-        | none => ({ st with dead := true }, "spec-undefined")
+        ({ st with ll := some (s', LL.specAppend l n nw v) }, ms (showRef nw) (showRef nw))
     | _, _ => (st, "bad-op")
   | ["ll_remove", n, f] =>
     match parseNode n, parseBool f with
     | some (some n), some f =>
       if !liveIn l (some n) then (st, "bad-node") else
       guardE st (LL.remove s n f) fun (s', nx, fr) =>
-        match LL.specRemove l n f with
-        | some (l', nx', fr') =>
-          ({ st with ll := some (s', l') },
-            ms s!"{showOptRef nx} {showFreed fr}" s!"{showOptRef nx'} {showFreed fr'}")
-        | none => ({ st with dead := true }, "spec-undefined")
+        let (l', nx', fr') := LL.specRemove l n f
+        ({ st with ll := some (s', l') },
+          ms s!"{showOptRef nx} {showFreed fr}" s!"{showOptRef nx'} {showFreed fr'}")
     | _, _ => (st, "bad-op")
   | ["ll_next", n] =>
     match parseNode n with
     | some (some n) =>
       if !liveIn l (some n) then (st, "bad-node") else
       guardE st (LL.next s n) fun r =>
-        (st, ms (showOptRef r) (showOptRef ((LL.specNext l n).getD none)))
+        (st, ms (showOptRef r) (showOptRef (LL.specNext l n)))
     | _ => (st, "bad-op")
   | ["ll_prev", n] =>
     match parseNode n with
     | some (some n) =>
       if !liveIn l (some n) then (st, "bad-node") else
       guardE st (LL.prev s n) fun r =>
-        (st, ms (showOptRef r) (showOptRef ((LL.specPrev l n).getD none)))
+        (st, ms (showOptRef r) (showOptRef (LL.specPrev l n)))
     | _ => (st, "bad-op")
   | ["ll_first"] => (st, ms (showOptRef (LL.first s)) (showOptRef (l.head?.map (·.1))))
   | ["ll_last"] => (st, ms (showOptRef (LL.last s)) (showOptRef (l.getLast?.map (·.1))))
@@ -229,7 +223,7 @@ def stepLL (st : St) (s : LL.LL) (l : LL.Spec) : List String → St × String
     | some n, some v =>
       if !liveIn l n then (st, "bad-node") else
       guardE st (LL.find s n v) fun r =>
-        (st, ms (showOptRef r) (showOptRef ((LL.specFind l n v).getD none)))
+        (st, ms (showOptRef r) (showOptRef (LL.specFind l n v)))
     | _, _ => (st, "bad-op")
   | ["ll_clear", f] =>
     match parseBool f with
